@@ -13,7 +13,6 @@ import (
 	"github.com/mewmew/float/bfloat"
 	"github.com/mewmew/float/binary128"
 	"github.com/mewmew/float/binary16"
-	"github.com/mewmew/float/float128ppc"
 	"github.com/mewmew/float/float80x86"
 	"github.com/pkg/errors"
 )
@@ -351,6 +350,10 @@ func ppcFP128FromBits(a, b uint64) (x *big.Float, nan bool) {
 	x = new(big.Float).SetPrec(ppcFP128Prec)
 	switch {
 	case math.IsNaN(high) || math.IsNaN(low):
+		// Store sign of NaN (the sign of the high part).
+		if math.Signbit(high) {
+			x.SetInt64(-1)
+		}
 		return x, true
 	case math.IsInf(high, 0):
 		// The low part of an infinite value carries no information.
@@ -508,9 +511,11 @@ func (c *Float) Ident() string {
 		// always represent x86_fp80 in hexadecimal floating-point notation.
 		const hexPrefix = 'K'
 		if c.NaN {
-			se, m := float80x86.NaN.Bits()
+			// Use the same canonical quiet NaN as LLVM (integer bit and quiet bit
+			// set, empty payload).
+			se, m := uint16(0x7FFF), uint64(0xC000000000000000)
 			if c.X != nil && c.X.Signbit() {
-				se, m = float80x86.NegNaN.Bits()
+				se = 0xFFFF
 			}
 			return fmt.Sprintf("0x%c%04X%016X", hexPrefix, se, m)
 		}
@@ -544,9 +549,11 @@ func (c *Float) Ident() string {
 		// always represent ppc_fp128 in hexadecimal floating-point notation.
 		const hexPrefix = 'M'
 		if c.NaN {
-			a, b := float128ppc.NaN.Bits()
+			// Use the same canonical quiet NaN as LLVM (quiet NaN in the high
+			// double, zero low double).
+			a, b := uint64(0x7FF8000000000000), uint64(0)
 			if c.X != nil && c.X.Signbit() {
-				a, b = float128ppc.NegNaN.Bits()
+				a = 0xFFF8000000000000
 			}
 			return fmt.Sprintf("0x%c%016X%016X", hexPrefix, a, b)
 		}
